@@ -54,6 +54,15 @@ class _Conn:
     def close(self):
         self._c.close()
 
+    def rollback(self):
+        self._c.rollback()
+
+    def execute(self, sql, params=()):
+        return self.cursor().execute(sql, params)
+
+    def __getattr__(self, name):
+        return getattr(self._c, name)
+
 
 class CrashingSqlite3:
     IntegrityError = real_sqlite3.IntegrityError
